@@ -73,7 +73,7 @@ func S5Retention(p *core.Program, a *spec.Anchors, r *core.Report) {
 		}
 	}
 	r.Count("S5.slice_or_any_parameters", len(sources))
-	r.Min("S5.slice_or_any_parameters", 25)
+	r.Min("S5.slice_or_any_parameters", 15)
 
 	// sinks
 	var sinks []s5Sink
@@ -168,7 +168,7 @@ func S5Retention(p *core.Program, a *spec.Anchors, r *core.Report) {
 	r.Count("S5.closures_examined", nClosures)
 	r.Count("S5.returns_examined", nReturns)
 	r.Min("S5.stores_examined", 150)
-	r.Min("S5.closures_examined", 40)
+	r.Min("S5.closures_examined", 15)
 
 	// discharge
 	violated := map[source]bool{}
@@ -466,6 +466,19 @@ func (c *s5ctx) escapes1(v ssa.Value) (bool, string) {
 			if !isVar {
 				// a field of a struct that lives in a local variable and is only handed (by value or by address) to
 				// functions that call the field: the function value does not outlive the activation
+				// an element of a local array / freshly made slice (a table of check closures, the argument array of a
+				// variadic call) that is only indexed, ranged over, or handed to functions that do the same and call
+				// the elements: the function value does not outlive the activation
+				if ia, ok := x.Addr.(*ssa.IndexAddr); ok {
+					switch root := ia.X.(type) {
+					case *ssa.Alloc, *ssa.MakeSlice:
+						if esc, why := c.containerEscapes(root.(ssa.Value), 0); !esc {
+							continue
+						} else if why != "" {
+							return true, fmt.Sprintf("is stored into %s (%s), which %s", s45_clip(s45_renderVal(x.Addr, 0), 60), c.p.Pos(x.Pos()), why)
+						}
+					}
+				}
 				if fa, ok := x.Addr.(*ssa.FieldAddr); ok {
 					if sal, ok := fa.X.(*ssa.Alloc); ok {
 						if esc, why := c.structFieldEscapes(sal, fa.Field, 0); !esc {
@@ -518,6 +531,101 @@ func (c *s5ctx) escapes1(v ssa.Value) (bool, string) {
 			}
 		case *ssa.If, *ssa.BinOp:
 			// comparison with nil
+		default:
+			return true, fmt.Sprintf("is used by %T at %s", ref, c.p.Pos(ref.Pos()))
+		}
+	}
+	return false, ""
+}
+
+// containerEscapes follows an array (by address) or slice holding function values and reports whether an element
+// may outlive the activation: the container is stored, returned, captured, or handed to a function that does so,
+// or an element read from it escapes in the sense of escapes().
+func (c *s5ctx) containerEscapes(v ssa.Value, depth int) (bool, string) {
+	if depth > 6 {
+		return true, "is passed through too many levels to follow"
+	}
+	refs := v.Referrers()
+	if refs == nil {
+		return false, ""
+	}
+	for _, ref := range *refs {
+		switch x := ref.(type) {
+		case *ssa.DebugRef:
+		case *ssa.IndexAddr:
+			if x.X != v {
+				return true, "is used as an index"
+			}
+			for _, r2 := range *x.Referrers() {
+				switch y := r2.(type) {
+				case *ssa.Store:
+					if y.Addr != x {
+						return true, fmt.Sprintf("has the address of an element stored (%s)", c.p.Pos(y.Pos()))
+					}
+				case *ssa.UnOp:
+					if esc, why := c.escapes(y); esc {
+						return true, "holds an element that " + why
+					}
+				case *ssa.DebugRef:
+				default:
+					return true, fmt.Sprintf("has an element address used by %T (%s)", r2, c.p.Pos(r2.Pos()))
+				}
+			}
+		case *ssa.Index:
+			if esc, why := c.escapes(x); esc {
+				return true, "holds an element that " + why
+			}
+		case *ssa.Slice:
+			if esc, why := c.containerEscapes(x, depth+1); esc {
+				return true, why
+			}
+		case *ssa.Range:
+			for _, r2 := range *x.Referrers() {
+				nx, ok := r2.(*ssa.Next)
+				if !ok {
+					continue
+				}
+				for _, r3 := range *nx.Referrers() {
+					if ex, ok := r3.(*ssa.Extract); ok && ex.Index == 2 {
+						if esc, why := c.escapes(ex); esc {
+							return true, "holds an element that " + why
+						}
+					}
+				}
+			}
+		case *ssa.Phi, *ssa.ChangeType:
+			if esc, why := c.containerEscapes(x.(ssa.Value), depth+1); esc {
+				return true, why
+			}
+		case ssa.CallInstruction:
+			cc := x.Common()
+			if b := s45_builtinName(cc); b == "len" || b == "cap" {
+				continue
+			} else if b != "" {
+				return true, "is handed to the builtin " + b
+			}
+			for j, arg := range cc.Args {
+				if arg != v {
+					continue
+				}
+				callees := c.e.callees[x]
+				if len(callees) == 0 || c.e.foreign[x] {
+					return true, fmt.Sprintf("is handed to a function outside the module (%s)", c.p.Pos(x.Pos()))
+				}
+				for _, cf := range callees {
+					pi := j
+					if cc.IsInvoke() {
+						pi = j + 1
+					}
+					if pi >= len(cf.Params) {
+						return true, fmt.Sprintf("is handed to %s", core.FuncKey(cf))
+					}
+					if esc, why := c.containerEscapes(cf.Params[pi], depth+1); esc {
+						return true, fmt.Sprintf("is handed to %s (%s), where it %s", core.FuncKey(cf), c.p.Pos(x.Pos()), why)
+					}
+				}
+			}
+		case *ssa.If, *ssa.BinOp:
 		default:
 			return true, fmt.Sprintf("is used by %T at %s", ref, c.p.Pos(ref.Pos()))
 		}
